@@ -150,8 +150,9 @@ def one_history(args):
                     res["draws"] += 1
                 sess.call("barrier", min_index=0, bound_ms=15000)
                 sess.call("sleep", ms=100)
+                settled = noderig.settle_on_disk(sess, d)
                 sess.kill()
-                log.restarts.append((log.tick(), "quiescent"))
+                log.restarts.append((log.tick(), "quiescent" if settled else "right-after-ack"))
                 sess = noderig.NodeSession(d, snapshot_size=snap)
                 res["restarts"] += 1
                 res["classes"].add("restart:one-entry-behind-snapshot")
@@ -177,6 +178,8 @@ def one_history(args):
                 elif mode == "quiescent":
                     sess.call("barrier", min_index=0, bound_ms=15000)
                     sess.call("sleep", ms=100)
+                    if not noderig.settle_on_disk(sess, d):
+                        mode = "right-after-ack"      # the applied index had not reached the file: not a quiescent stop
                 sess.kill()
                 log.restarts.append((log.tick(), mode))
                 sess = noderig.NodeSession(d, snapshot_size=snap)
